@@ -28,6 +28,13 @@ CLAIMED["C14"] = {
     "technique": "deterministic simulation: seeded call-history search with counter reference model, fake back-end peers, RNG seam and disk fault injection",
 }
 
+CLAIMED["C04"] = {
+    "text": "Seeded search over sessions in which one circuit per step (random numeric or a non-palindromic basis state) is viewed through every channel of one runner - state vector, exact distribution, sampled tuples and count strings in both internal sampling regimes and at their boundary, sampled distribution, exact and measurement-based expectation values of Z-type operators - under a simulated random generator (real numpy generators seeded per step, or an adversarial stub returning legal draws: first/last/least/most probable outcome, uniform, alternating), with caches cleared or warm and peer failures injected. All views must agree with a state-vector model with qubit 0 as most significant bit. Evidence over sampled programs (<=4 qubits), not proof.",
+    "design_ref": "DESIGN.md §3 C04",
+    "note": "Trusted: the state-vector model, the Z-eigenvalue table, SimRNG's legality rule (only outcomes of strictly positive probability). Stub: numpy Generator in adversarial mode, SplitSim native applier. Real: sample_from_wavefunction (both branches), Wavefunction readers, conversion caches, Measurements, distribution factory, sparse-operator expectation.",
+    "technique": "deterministic simulation: seeded session search with simulated/adversarial RNG seam and configuration sweep over sampling regimes, refinement against a state-vector model",
+}
+
 PENDING = {pid: "applicable (DESIGN.md §3) but its check is not built yet at this commit; not claimed until it is" for pid in
            ["C01", "C04", "C05", "C11", "C13", "C14", "C15", "C17", "C20"] if pid not in CLAIMED}
 
